@@ -269,7 +269,7 @@ def main(ctx):
     reg = sorted(glob.glob(os.path.join(common.VERIF_DIR, "regress", "C06", "*.json")))
     ctx.pmap(regress_worker, [(p, tuple(ctx.open_keys)) for p in reg])
     n = 40 if quick else 400
-    stop_at = time.time() + (70 if quick else 1500)
+    stop_at = time.time() + (70 if quick else 900)
     ctx.pmap(worker, [(ctx.seed * 100003 + i, n, tuple(ctx.open_keys), ctx.tier, stop_at) for i in range(common.NPROC)])
     ctx.rule = ("case = (generated program, code-generation option set); per case every (state index, byte 0..255 / END, data context in "
                 "{after start, strings full, strings 1 byte / ints max, mixed}) is executed once in the gcc-built C (state forced, outputs poked) and "
